@@ -225,6 +225,28 @@ def small_scope_cases(ctx, maxsize, maxlen, limit=None):
     return cases, len(specs), len(argvs)
 
 
+def dd_env_cases(ctx, limit):
+    """a spec-level `--` inside repetitions and choices, next to options that the environment may satisfy, on lines with
+    dash-prefixed tokens that are no occurrence of a declared option: the search has to come back, after the `--` took
+    effect, to states it had already left"""
+    decls0 = [gen.mkopt("custom", "f", custom=dict(gen.CUSTOM_FLAG), env="EF", sbu=True), gen.mkopt("strings", "t", env="ET", sbu=True),
+              gen.mkarg("strings", "X", sbu=True), gen.mkarg("strings", "Y", sbu=True)]
+    specs = ["(-t X | -- )...", "(-f (-- | X))...", "(-t (-- | X))...", "[-t] (X | --)...", "(-- | -t X)...", "(-f [X] | --)... Y",
+             "-t (-- X | X)...", "([-f] -- | X)...", "(-t | -- | X)...", "(-f -- X)...", "[-f --]... X", "(-f | --)... X", "(-t --)... [X]",
+             "((-t | --) X)...", "(-f X | -- Y)...", "[-f | --]... X Y", "(X -f [--])...", "(-f (X | -- Y...))..."]
+    toks = ["-5", "-v", "x", "--", "-t", "-t=1", "-f", "-tx", "-"]
+    cases = []
+    for sp in specs:
+        for envset in ({}, {"EF": "true"}, {"ET": "e"}, {"EF": "true", "ET": "e"}):
+            for n in (0, 1, 2, 3):
+                for av in itertools.product(toks, repeat=n):
+                    cases.append({"op": "run", "env": dict(envset), "version": None, "argv": list(av),
+                                  "root": gen.mkcmd("app", decls=copy.deepcopy(decls0), spec=sp, policy=0)})
+    if len(cases) > limit:
+        cases = ctx.rng.sample(cases, limit)
+    return cases
+
+
 def target_of(case, o):
     """per-variable bound strings as observed (custom flags log Set calls, strings hold the tokens)"""
     opts = [d for d in case["root"]["decls"] if d["t"] == "opt"]
@@ -445,6 +467,7 @@ def check_C01(ctx):
                         i_ += 1
                 toks = opts_ + [t for t in toks if not t.startswith("-") and t not in ("v",)][:ctx.rng.randint(1, 8)]
             blank.append({"op": "run", "env": {}, "version": None, "root": gen.mkcmd("app", decls=copy.deepcopy(ld), spec=sp, policy=0), "argv": toks})
+    blank += dd_env_cases(ctx, ctx.scale(6000, 60000))
     number(blank, start=len(cases) + len(sc))
     res3 = correspond(ctx, blank, fields, "specs of blanks and padded specs")
     st3 = judge_sentences(ctx, blank, res3, "C01")
